@@ -12,12 +12,12 @@ structure TyInfo where
   numMethods : Ty → Nat
 
 def stdTyInfo : TyInfo :=
-  { isIface := fun t => t == 10 || t == 11 || t == 20 || t == 21
+  { isIface := fun t => t == 10 || t == 11 || t == 12 || t == 20 || t == 21
     implements := fun c i =>
-      (i == 10 && (c == 5 || c == 6)) || (i == 11 && (c == 6 || c == 7))
+      (i == 10 && (c == 5 || c == 6 || c == 12)) || (i == 11 && (c == 6 || c == 7 || c == 12)) || (i == 12 && c == 6)
       -- error / TerminalError are interfaces with the same method set: each implements the other
       || (i == 20 && c == 21) || (i == 21 && c == 20)
-    numMethods := fun t => if t == 5 || t == 7 || t == 10 || t == 11 || t == 20 || t == 21 then 1 else if t == 6 then 2 else 0 }
+    numMethods := fun t => if t == 5 || t == 7 || t == 10 || t == 11 || t == 20 || t == 21 then 1 else if t == 6 || t == 12 then 2 else 0 }
 
 /-- per-provider working data (`provider` + `includeWorkingData`) -/
 structure IP where
